@@ -126,7 +126,19 @@ def check_membership(ctx, R="C03.member"):
     for cname in ("IntersectionRegion", "UnionRegion", "DifferenceRegion"):
         f = model.func(RG, f"{cname}.uniformPointInner")
         t = unparse(f)
-        if "self.genericSampler" in t and "sampler(self)" in t:
+        applied = [
+            c
+            for c in walk_local(f)
+            if isinstance(c, ast.Call)
+            and len(c.args) == 1
+            and unparse(c.args[0]) == "self"
+            and not c.keywords
+            and (
+                (isinstance(c.func, ast.Name) and c.func.id in lib.locals_assigned(f, lambda v: "self.sampler" in unparse(v) or "self.genericSampler" in unparse(v)))
+                or "self.genericSampler" in unparse(c.func)
+            )
+        ]
+        if "self.genericSampler" in t and applied:
             ctx.ok(R, f, f"{cname}.uniformPointInner applies the (generic) sampler to this region")
         else:
             ctx.finding(R, f, f"{cname}.uniformPointInner sampler", f"{cname}.uniformPointInner no longer calls `sampler(self)` with genericSampler as default")
